@@ -73,13 +73,29 @@ Print Assumptions C12_tls_uniform_run.
 (* The settings govern every handshake of every request, on all three stacks: each ClientHello carries the
    client's server name; a request that handshakes and succeeds implies the origin is acceptable under the
    client's current settings (so an unacceptable certificate is rejected whatever the version), and a
-   certificate failure implies it is not (an acceptable one is never refused). *)
+   certificate failure implies it is not (an acceptable one is never refused).  [user_tls c = None]: the caller
+   has not replaced the library's TLS by his own through SetDialTLS / SetTLSHandshake (next theorem). *)
 Theorem C12_settings_govern_every_handshake : forall e c,
+  user_tls c = None ->
   let '(o, ds, _) := do_req e c in
   Forall (fun d => d_sni d = t_sname (effective (e_host e) (c_tls c))) ds /\
   (ds <> [] -> (forall v, o = Use v -> acceptable e c = true) /\ (o = Fail ECert -> acceptable e c = false)).
-Proof. exact (fun e c => do_req_sound altsvc_only_unforced e c). Qed.
+Proof. exact (fun e c => do_req_sound_client altsvc_only_unforced e c). Qed.
 Print Assumptions C12_settings_govern_every_handshake.
+
+(* SetDialTLS / SetTLSHandshake (documented as valid for HTTP/1 and HTTP/2 only): every TCP handshake is then
+   governed - in the same sense - by the configuration the caller's function uses, every QUIC handshake still by
+   the client's settings; in EVERY client state. *)
+Theorem C12_user_tls_governs_tcp_only : forall e c t,
+  user_tls c = Some t ->
+  let '(o, ds, _) := do_req e c in
+  Forall (fun d =>
+    let g := if stack_quic (d_stack d) then effective (e_host e) (c_tls c) else default_sname (e_host e) t in
+    d_sni d = t_sname g /\
+    (forall v, o = Use v -> acceptable_under g e = true) /\
+    (o = Fail ECert -> acceptable_under g e = false)) ds.
+Proof. exact user_tls_governs_tcp_only. Qed.
+Print Assumptions C12_user_tls_governs_tcp_only.
 
 (* Forcing after first use: whatever the client did before - requests on any version, cached connections,
    learned Alt-Svc entries, clones - once a version is forced the next request uses it or fails. *)
@@ -99,7 +115,7 @@ Print Assumptions C12_forced_after_any_history.
    unacceptable under the client's settings (wrong root, wrong name, missing client certificate, no skip) and
    is never refused for its certificate when the origin is acceptable. *)
 Theorem C12_new_connection_decided_by_settings : forall e c,
-  e_https e = true -> c_plain_dialtls c = false -> no_conns c ->
+  e_https e = true -> c_plain_dialtls c = false -> user_tls c = None -> no_conns c ->
   (acceptable e c = false -> exists er, outcome_of (do_req e c) = Fail er) /\
   (acceptable e c = true -> outcome_of (do_req e c) <> Fail ECert).
 Proof. exact new_connection_decided_by_settings. Qed.
